@@ -385,8 +385,13 @@ pub fn rvalue(r: &mut Rng, ty: &str) -> String {
             // distinct ids and distinct timestamps, sums that fit; one queue value in 150 is long
             let n = if ty == "queue" && r.chance(1, 150) { r.range(1020, 1100) } else { r.below(4) };
             let mut v = Vec::new();
+            // one short value in three has orders that SHARE a timestamp (same millisecond, unstamped, u64::MAX),
+            // one in six has timestamps that decrease along the list
+            let ties = n < 10 && r.chance(1, 3);
+            let falling = n < 10 && !ties && r.chance(1, 5);
+            let tie_ts = *r.pick(&[0u64, 10, u64::MAX]);
             for i in 0..n {
-                let tsv = 10 + i * 3 + r.below(3);
+                let tsv = if ties && r.chance(2, 3) { tie_ts } else if falling { 100 - i * 3 } else { 10 + i * 3 + r.below(3) };
                 let mut o = rorder(r, Some(tsv));
                 // small quantities so that a level's sums fit in 64 bits; distinct ids
                 o = match parse_order(&show_order(&o)) { Some(x) => x, None => o };
@@ -480,6 +485,15 @@ pub fn mutate(r: &mut Rng, s: &str) -> String {
         out = mutate(r, &out);
     }
     out
+}
+
+/// do two orders of a queue / level value carry the same timestamp?
+pub fn has_tied_timestamps(ty: &str, v: &str) -> bool {
+    let os = if ty == "level" { v.split_once(';').map(|x| x.1).unwrap_or(v) } else { v };
+    let l = parse_list(os, parse_order).unwrap_or_default();
+    let mut ts: Vec<u64> = l.iter().map(|o| o.timestamp()).collect();
+    ts.sort_unstable();
+    ts.windows(2).any(|w| w[0] == w[1])
 }
 
 /// protocol value of a queue / level with its orders in canonical order
